@@ -32,6 +32,10 @@ def merge_known(theirs):
     for f in th["findings"]:
         if f["id"] not in ids:
             ours["findings"].append(f)
+        elif f.get("status") == "fixed":
+            for i, o in enumerate(ours["findings"]):
+                if o["id"] == f["id"] and o.get("status") != "fixed":
+                    ours["findings"][i] = f
     json.dump(ours, open(os.path.join(ROOT, "known_findings.json"), "w"), indent=1)
 
 if __name__ == "__main__":
